@@ -22,9 +22,9 @@ def _merge(a: dict, b: dict, path=None):
         if key in a:
             if isinstance(a[key], dict) and isinstance(b[key], dict):
                 _merge(a[key], b[key], path + [str(key)])
-            elif a[key] == b[key]:
-                pass  # same leaf value
             else:
+                # Always take the value from b, even if it compares equal to the one in a
+                # (a TOML 1, 1.0 and true are different values but equal in Python)
                 a[key] = b[key]
         else:
             a[key] = b[key]
